@@ -454,7 +454,7 @@ package parser
 
 //@ pred PosIn(q, n) := q.Line >= 1 && q.Column >= 1 && q.Line <= n + 1 && q.Column <= n + 1
 //@ pred ErrOK(p) := forall k int :: {p.errors[k]} 0 <= k && k < len(p.errors) ==> PosIn(p.errors[k].Pos, len(p.lexer.input))
-//@ pred ParInv(p) := p != nil && p.lexer != nil && LexInv(p.lexer) && Pos16(p.lexer) && (p.current.Type == TokenEOF ==> p.lexer.pos == len(p.lexer.input)) && PosIn(p.current.Pos, len(p.lexer.input)) && PosIn(p.current.End, len(p.lexer.input)) && PosOK(p.lexer.input, p.current.Pos) && PosOK(p.lexer.input, p.current.End) && ErrOK(p)
+//@ pred ParInv(p) := p != nil && p.lexer != nil && LexInv(p.lexer) && Pos16(p.lexer) && (p.current.Type == TokenEOF ==> p.lexer.pos == len(p.lexer.input)) && PosIn(p.current.Pos, len(p.lexer.input)) && PosIn(p.current.End, len(p.lexer.input)) && PosOK(p.lexer.input, p.current.Pos) && PosOK(p.lexer.input, p.current.End) && len(p.current.Value) <= len(p.lexer.input) && ErrOK(p)
 //@ pred MuLe(p) := 2 * (len(p.lexer.input) - p.lexer.pos) + ite(p.current.Type != TokenEOF, 1, 0) <= old(2 * (len(p.lexer.input) - p.lexer.pos) + ite(p.current.Type != TokenEOF, 1, 0))
 //@ pred MuLt(p) := 2 * (len(p.lexer.input) - p.lexer.pos) + ite(p.current.Type != TokenEOF, 1, 0) < old(2 * (len(p.lexer.input) - p.lexer.pos) + ite(p.current.Type != TokenEOF, 1, 0))
 //@ pred Mu(p) := 2 * (len(p.lexer.input) - p.lexer.pos) + ite(p.current.Type != TokenEOF, 1, 0)
@@ -544,6 +544,7 @@ package parser
 //@   props C06
 //@   requires ParInv(p)
 //@   ensures [inv] ParInv(p) && PFrame(p) && MuLe(p)
+//@   ensures [date_range] result != nil ==> PosIn(result.Range.Start, len(p.lexer.input)) && PosIn(result.Range.End, len(p.lexer.input))
 //@   ensures [lt] old(p.current.Type) == TokenDate ==> MuLt(p)
 //@   modifies p.current, p.errors, p.defaultYear, p.lexer.pos, p.lexer.column, p.lexer.line, p.lexer.atStart
 //@   loop 1 invariant 0 <= i && ParInv(p) && PFrame(p) && MuLe(p) && (old(p.current.Type) == TokenDate ==> MuLt(p))
@@ -583,6 +584,8 @@ package parser
 //@ pred PLine(po, n) := po.Range.Start.Line >= 1 && po.Range.Start.Line <= n + 1 && PosIn(po.Account.Range.Start, n) && PosIn(po.Account.Range.End, n) && (po.Amount != nil && po.Amount.Commodity.Symbol != "" ==> PosIn(po.Amount.Commodity.Range.Start, n) && PosIn(po.Amount.Commodity.Range.End, n)) && (po.Cost != nil && po.Cost.Amount.Commodity.Symbol != "" ==> PosIn(po.Cost.Amount.Commodity.Range.Start, n) && PosIn(po.Cost.Amount.Commodity.Range.End, n)) && (po.BalanceAssertion != nil && po.BalanceAssertion.Amount.Commodity.Symbol != "" ==> PosIn(po.BalanceAssertion.Amount.Commodity.Range.Start, n) && PosIn(po.BalanceAssertion.Amount.Commodity.Range.End, n))
 // DirOK: the account / commodity named by a directive has a range inside the input.
 //@ pred DirOK(d, n) := (typeis(d, "ast.AccountDirective") ==> PosIn(as(d, "ast.AccountDirective").Account.Range.Start, n) && PosIn(as(d, "ast.AccountDirective").Account.Range.End, n)) && (typeis(d, "ast.CommodityDirective") && as(d, "ast.CommodityDirective").Commodity.Symbol != "" ==> PosIn(as(d, "ast.CommodityDirective").Commodity.Range.Start, n) && PosIn(as(d, "ast.CommodityDirective").Commodity.Range.End, n))
+// TxHeadOK: the date of a transaction has a range inside the input and the description position is absent or valid.
+//@ pred TxHeadOK(tx, n) := PosIn(tx.Date.Range.Start, n) && PosIn(tx.Date.Range.End, n) && ((tx.DescriptionPos.Line == 0 && tx.DescriptionPos.Column == 0) || PosIn(tx.DescriptionPos, n)) && len(tx.Description) <= 2 * n + 3 && len(tx.Payee) <= n
 //@ func (*Parser).parsePosting
 //@   props C06
 //@   requires ParInv(p)
@@ -596,6 +599,7 @@ package parser
 //@   requires ParInv(p) && p.current.Type == TokenDate
 //@   ensures [inv] ParInv(p) && PFrame(p) && MuLe(p)
 //@   ensures [posting_lines] result != nil ==> (forall k int :: {result.Postings[k]} 0 <= k && k < len(result.Postings) ==> PLine(result.Postings[k], len(p.lexer.input)))
+//@   ensures [head_ranges] result != nil ==> TxHeadOK(result, len(p.lexer.input))
 //@   ensures [C08:description_pos] result != nil ==> (result.DescriptionPos.Line == 0 && result.DescriptionPos.Column == 0) || PosOK(p.lexer.input, result.DescriptionPos)
 //@   ensures [lt] MuLt(p)
 //@   modifies p.current, p.errors, p.defaultYear, p.lexer.pos, p.lexer.column, p.lexer.line, p.lexer.atStart
@@ -610,10 +614,12 @@ package parser
 //@   ensures [inv] ParInv(p) && PFrame(p) && p.current.Type == TokenEOF
 //@   ensures [nonnil] result != nil && fresh(result)
 //@   ensures [directive_ranges] forall d int :: {result.Directives[d]} 0 <= d && d < len(result.Directives) ==> DirOK(result.Directives[d], len(p.lexer.input))
+//@   ensures [head_ranges] forall i int :: {result.Transactions[i]} 0 <= i && i < len(result.Transactions) ==> TxHeadOK(result.Transactions[i], len(p.lexer.input))
 //@   ensures [posting_lines] forall i int, k int :: {result.Transactions[i].Postings[k]} 0 <= i && i < len(result.Transactions) && 0 <= k && k < len(result.Transactions[i].Postings) ==> PLine(result.Transactions[i].Postings[k], len(p.lexer.input))
 //@   modifies p.current, p.errors, p.defaultYear, p.lexer.pos, p.lexer.column, p.lexer.line, p.lexer.atStart
 //@   loop 1 invariant ParInv(p) && PFrame(p) && journal != nil && fresh(journal)
 //@   loop 1 invariant forall d int :: {journal.Directives[d]} 0 <= d && d < len(journal.Directives) ==> DirOK(journal.Directives[d], len(p.lexer.input))
+//@   loop 1 invariant forall i int :: {journal.Transactions[i]} 0 <= i && i < len(journal.Transactions) ==> TxHeadOK(journal.Transactions[i], len(p.lexer.input))
 //@   loop 1 invariant forall i int, k int :: {journal.Transactions[i].Postings[k]} 0 <= i && i < len(journal.Transactions) && 0 <= k && k < len(journal.Transactions[i].Postings) ==> PLine(journal.Transactions[i].Postings[k], len(p.lexer.input))
 //@   loop 1 decreases 2 * (len(p.lexer.input) - p.lexer.pos) + ite(p.current.Type != TokenEOF, 1, 0)
 
@@ -695,5 +701,6 @@ package parser
 //@   ghostdef [parsed_from] parsedFrom(result0) == input && nErrs(result0) == len(result1)
 //@   ensures [nonnil] result0 != nil && fresh(result0)
 //@   ensures [directive_ranges] forall d int :: {result0.Directives[d]} 0 <= d && d < len(result0.Directives) ==> DirOK(result0.Directives[d], len(input))
+//@   ensures [head_ranges] forall i int :: {result0.Transactions[i]} 0 <= i && i < len(result0.Transactions) ==> TxHeadOK(result0.Transactions[i], len(input))
 //@   ensures [posting_lines] forall i int, k int :: {result0.Transactions[i].Postings[k]} 0 <= i && i < len(result0.Transactions) && 0 <= k && k < len(result0.Transactions[i].Postings) ==> PLine(result0.Transactions[i].Postings[k], len(input))
 //@   ensures [C08:errpos] forall k int :: {result1[k]} 0 <= k && k < len(result1) ==> PosIn(result1[k].Pos, len(input))
